@@ -122,11 +122,70 @@ func urlLiterals(fn *ssa.Function) []*ssa.Alloc {
 	return out
 }
 
+// nonEmptyRawPath: v is a load of some URL's RawPath that happens only where that RawPath was found
+// non-empty (net/url leaves RawPath empty whenever the default encoding of Path reproduces the
+// received text, so the field alone is not a raw-path source - but where it is set, it is the
+// received text).
+func nonEmptyRawPath(v ssa.Value) bool {
+	ld, ok := v.(*ssa.UnOp)
+	if !ok || ld.Block() == nil {
+		return false
+	}
+	root, p := accessPath(v)
+	if len(p) == 0 || p[len(p)-1] != "RawPath" {
+		return false
+	}
+	fn := ld.Parent()
+	return onlyVia(fn, ld.Block(), func(f Fact) bool {
+		var fld ssa.Value
+		if l, kd := lenFact(f); l != nil && kd == "nonempty" {
+			fld = l
+		} else if f.Kind == FCmp && f.Op == token.NEQ {
+			for _, pr := range [][2]ssa.Value{{f.X, f.Y}, {f.Y, f.X}} {
+				if s, ok := constString(pr[1]); ok && s == "" {
+					fld = pr[0]
+				}
+			}
+		}
+		if fld == nil {
+			return false
+		}
+		fr, fp := accessPath(fld)
+		if fr != root || len(fp) != len(p) {
+			return false
+		}
+		for i := range p {
+			if p[i] != fp[i] {
+				return false
+			}
+		}
+		return true
+	})
+}
+
 // isRawPathSource: a value that is a still percent-encoded request path.
 func isRawPathSource(v ssa.Value) string {
+	if nonEmptyRawPath(v) {
+		return "URL.RawPath (where set)"
+	}
 	c, _ := resultOfCall(v)
 	if c == nil {
 		return ""
+	}
+	// a helper of the module all of whose results are raw-path sources
+	if cal := c.Common().StaticCallee(); cal != nil && cal.Blocks != nil && gWorld != nil && gWorld.inModule(cal) && cal.Signature.Results().Len() == 1 && isString(cal.Signature.Results().At(0).Type()) {
+		all, n := true, 0
+		for _, ret := range returnsOf(cal) {
+			for _, o := range gWorld.Origins(ret.Results[0], nil) {
+				n++
+				if o == v || isRawPathSource(o) == "" {
+					all = false
+				}
+			}
+		}
+		if all && n > 0 {
+			return cal.Name() + "() (raw path as received)"
+		}
 	}
 	n := callName(c.Common())
 	switch {
